@@ -126,6 +126,10 @@ func extractSinglePart(re *syntax.Regexp) *charClassPart {
 		if len(re.Sub) != 1 {
 			return nil
 		}
+		if re.Max == 0 {
+			// cc{0}: maxMatch 0 would read as "unlimited"
+			return nil
+		}
 		charClass = re.Sub[0]
 		minMatch = re.Min
 		maxMatch = re.Max
@@ -286,8 +290,8 @@ func isValidCompositePart(re *syntax.Regexp) bool {
 		return re.Sub[0].Op == syntax.OpCharClass
 
 	case syntax.OpRepeat:
-		// Must have exactly one sub which is a char class
-		if len(re.Sub) != 1 {
+		// Must have exactly one sub which is a char class; cc{0} is not representable (max 0 = unlimited)
+		if len(re.Sub) != 1 || re.Max == 0 {
 			return false
 		}
 		return re.Sub[0].Op == syntax.OpCharClass
